@@ -2,12 +2,14 @@ package main
 
 import (
 	"bytes"
+	"crypto/sha256"
 	"encoding/hex"
 	"fmt"
 	"io/ioutil"
 	"os"
 	"path/filepath"
 	"runtime/debug"
+	"sort"
 	"strconv"
 	"strings"
 	"sync"
@@ -43,10 +45,19 @@ type C16Blob struct {
 	B []byte
 }
 
+// C16Empty has no fields and C16Lists only lists and an optional pointer: their encodings may be
+// the 16 bytes of the type id and nothing else (a service's initial, still empty state).
+type C16Empty struct{}
+type C16Lists struct {
+	L [][]byte
+	P []string
+	O *C16Empty
+}
+
 // c16Unregistered is never registered with the network library.
 type c16Unregistered struct{ X int64 }
 
-var c16TypeRec, c16TypeBlob network.MessageTypeID
+var c16TypeRec, c16TypeBlob, c16TypeEmpty, c16TypeLists network.MessageTypeID
 
 type c16Service struct {
 	*onet.ServiceProcessor
@@ -63,6 +74,8 @@ func c16types() {
 	c16typesOnce.Do(func() {
 		c16TypeRec = network.RegisterMessage(&C16Rec{})
 		c16TypeBlob = network.RegisterMessage(&C16Blob{})
+		c16TypeEmpty = network.RegisterMessage(&C16Empty{})
+		c16TypeLists = network.RegisterMessage(&C16Lists{})
 	})
 }
 
@@ -82,6 +95,42 @@ func c16isName(n string) bool {
 	return false
 }
 
+// the oracle's specification state of one server: one map per service, surviving restarts
+type c16specState struct {
+	main  map[string]map[string][]byte
+	ver   map[string][]byte
+	extra map[string]map[string]map[string][]byte
+}
+
+func c16newSpec() *c16specState {
+	return &c16specState{main: map[string]map[string][]byte{}, ver: map[string][]byte{}, extra: map[string]map[string]map[string][]byte{}}
+}
+
+// the directory the database files are in
+func (e *c16env) dataDir() string {
+	if e.useDef {
+		return filepath.Join(e.dir, "conode")
+	}
+	return e.dir
+}
+
+func (e *c16env) dbFiles() []string {
+	files, _ := filepath.Glob(filepath.Join(e.dataDir(), "*.db"))
+	var out []string
+	for _, f := range files {
+		out = append(out, filepath.Base(f))
+	}
+	sort.Strings(out)
+	return out
+}
+
+// the names the code gives the database file of key i: current and legacy
+func (e *c16env) fileNames(i int) (string, string) {
+	pub, _ := e.keys[i].Public.MarshalBinary()
+	h := sha256.Sum256(pub)
+	return filepath.Join(e.dataDir(), hex.EncodeToString(h[:])+".db"), filepath.Join(e.dataDir(), hex.EncodeToString(pub)+".db")
+}
+
 type c16result struct {
 	impl    []string
 	sig     string
@@ -91,12 +140,18 @@ type c16result struct {
 }
 
 type c16env struct {
-	db       *bbolt.DB
-	dir      string
-	priv     *key.Pair
-	srv      *onet.Server
-	ctx      map[string]*onet.Context
-	services []string
+	db        *bbolt.DB
+	dir       string
+	keys      []*key.Pair // the servers' keys (op "keys"; one random key otherwise)
+	cur       int         // key of the running server
+	tmp       bool        // the running server was made for a temporary directory (deleted on close)
+	keysGiven bool
+	useDef    bool // the data directory is the default location (no CONODE_SERVICE_PATH)
+	bykey     map[int]*c16specState
+	files     map[string]bool // database files the directory must hold according to the harness's own bookkeeping
+	srv       *onet.Server
+	ctx       map[string]*onet.Context
+	services  []string
 	// the oracle's specification state: one map per service, surviving restarts
 	main                 map[string]map[string][]byte
 	ver                  map[string][]byte
@@ -148,6 +203,13 @@ func (e *c16env) recheck(after string, fail func(sig, msg string)) {
 	}
 }
 
+func c16joinDot(l []string) string {
+	if len(l) == 0 {
+		return "."
+	}
+	return strings.Join(l, ".")
+}
+
 func c16short(s string) string {
 	if len(s) > 160 {
 		return s[:160] + "..."
@@ -181,14 +243,39 @@ func c16setRegistered(want []string) error {
 	return nil
 }
 
-func (e *c16env) start(services []string) error {
+func (e *c16env) start(services []string, ki int, tmp bool) error {
 	if err := c16setRegistered(services); err != nil {
 		return err
 	}
-	os.Setenv("CONODE_SERVICE_PATH", e.dir)
-	si := network.NewServerIdentity(e.priv.Public, network.NewTCPAddress("127.0.0.1:0"))
-	si.SetPrivate(e.priv.Private)
-	e.srv = onet.NewServerTCP(si, fix.Suite)
+	kp := e.keys[ki]
+	if tmp {
+		// the way the test helpers of local.go make a server: a path is given, the database is deleted on close
+		si := network.NewServerIdentity(kp.Public, network.NewLocalAddress("127.0.0.1:2000"))
+		si.SetPrivate(kp.Private)
+		srv, err := onet.VerifNewServerOnPath(fix.Suite, e.dataDir(), si, kp.Private)
+		if err != nil {
+			return err
+		}
+		e.srv = srv
+	} else {
+		if e.useDef {
+			os.Setenv("CONODE_SERVICE_PATH", "")
+			os.Setenv("XDG_DATA_HOME", e.dir)
+		} else {
+			os.Setenv("CONODE_SERVICE_PATH", e.dir)
+		}
+		si := network.NewServerIdentity(kp.Public, network.NewTCPAddress("127.0.0.1:0"))
+		si.SetPrivate(kp.Private)
+		e.srv = onet.NewServerTCP(si, fix.Suite)
+	}
+	e.cur, e.tmp = ki, tmp
+	if e.bykey[ki] == nil {
+		e.bykey[ki] = c16newSpec()
+	}
+	sp := e.bykey[ki]
+	e.main, e.ver, e.extra = sp.main, sp.ver, sp.extra
+	e.files[fmt.Sprintf("new:%d", ki)] = true
+	delete(e.files, fmt.Sprintf("old:%d", ki))
 	e.ctx = map[string]*onet.Context{}
 	for _, n := range services {
 		s, ok := e.srv.Service(n).(*c16Service)
@@ -204,6 +291,13 @@ func (e *c16env) start(services []string) error {
 func (e *c16env) stop() {
 	if e.srv != nil {
 		e.srv.Close()
+		if e.tmp {
+			// documented: a server made with a path deletes its database on close
+			e.bykey[e.cur] = c16newSpec()
+			delete(e.files, fmt.Sprintf("new:%d", e.cur))
+		} else if sp := e.bykey[e.cur]; sp != nil {
+			sp.main = e.main // a concurrent segment replaces the map
+		}
 		e.srv = nil
 		e.ctx = nil
 		e.db = nil
@@ -280,6 +374,34 @@ func c16value(spec string) (interface{}, bool) {
 			b = nil
 		}
 		return &C16Rec{I: i, S: string(sb), B: b}, true
+	case p[0] == "empty" && len(p) == 1:
+		return &C16Empty{}, true
+	case p[0] == "lists" && len(p) == 4:
+		v := &C16Lists{}
+		if p[1] != "." {
+			for _, t := range strings.Split(p[1], ".") {
+				b, ok := c16unhex(t)
+				if !ok {
+					return nil, false
+				}
+				v.L = append(v.L, b)
+			}
+		}
+		if p[2] != "." {
+			for _, t := range strings.Split(p[2], ".") {
+				b, ok := c16unhex(t)
+				if !ok {
+					return nil, false
+				}
+				v.P = append(v.P, string(b))
+			}
+		}
+		if p[3] == "set" {
+			v.O = &C16Empty{}
+		} else if p[3] != "nil" {
+			return nil, false
+		}
+		return v, true
 	case p[0] == "blob" && len(p) == 2:
 		b, ok := c16unhex(p[1])
 		if !ok {
@@ -293,8 +415,33 @@ func c16value(spec string) (interface{}, bool) {
 	return nil, false
 }
 
+func c16tagList() string {
+	return c16hex(c16TypeRec[:]) + "," + c16hex(c16TypeBlob[:]) + "," + c16hex(c16TypeEmpty[:]) + "," + c16hex(c16TypeLists[:])
+}
+
+// c16keyFromSeed derives a server key pair from a seed, so that a case names its servers' keys
+func c16keyFromSeed(seed []byte) *key.Pair {
+	priv := fix.Suite.Scalar().Pick(fix.Suite.XOF(seed))
+	return &key.Pair{Private: priv, Public: fix.Suite.Point().Mul(priv, nil)}
+}
+
 func c16spec(v interface{}) string {
 	switch x := v.(type) {
+	case *C16Empty:
+		return "empty"
+	case *C16Lists:
+		var l, ps []string
+		for _, b := range x.L {
+			l = append(l, c16hex(b))
+		}
+		for _, q := range x.P {
+			ps = append(ps, c16hex([]byte(q)))
+		}
+		o := "nil"
+		if x.O != nil {
+			o = "set"
+		}
+		return "lists/" + c16joinDot(l) + "/" + c16joinDot(ps) + "/" + o
 	case *C16Rec:
 		return fmt.Sprintf("rec/%d/%s/%s", x.I, c16hex([]byte(x.S)), c16hex(x.B))
 	case *C16Blob:
@@ -558,9 +705,11 @@ func c16exec(c *h.Ctx, cs *h.Case) {
 }
 
 func c16run(res *c16result, mu *sync.Mutex, dir string, class string) {
-	e := &c16env{dir: dir, priv: key.NewKeyPair(fix.Suite), main: map[string]map[string][]byte{}, ver: map[string][]byte{},
-		extra: map[string]map[string]map[string][]byte{}, kinds: map[string]bool{}}
-	e.check = !strings.HasPrefix(class, "collide") && class != "refused" && class != "outside-lossless-range"
+	e := &c16env{dir: dir, keys: []*key.Pair{key.NewKeyPair(fix.Suite)}, main: map[string]map[string][]byte{}, ver: map[string][]byte{},
+		extra: map[string]map[string]map[string][]byte{}, kinds: map[string]bool{}, bykey: map[int]*c16specState{}, files: map[string]bool{}}
+	// classes compared with the model only: service names outside the premise, and servers made
+	// for a temporary directory (their database is deleted on close by design)
+	e.check = !strings.HasPrefix(class, "collide") && class != "refused" && class != "outside-lossless-range" && class != "tmp-dir"
 	defer e.stop()
 	fail := func(sig, msg string) {
 		mu.Lock()
@@ -608,14 +757,97 @@ func c16run(res *c16result, mu *sync.Mutex, dir string, class string) {
 		switch {
 		case tk[1] == "tags" && len(tk) == 3:
 			// the type ids are constants of the code; the model is told which ones exist
-			want := c16hex(c16TypeRec[:]) + "," + c16hex(c16TypeBlob[:])
+			want := c16tagList()
 			if tk[2] != want {
 				emit("harness:tags-changed:" + want)
 				fail("tags", "type ids of the harness value types are not the ones in the case: "+want)
 				continue
 			}
 			emit("ok")
-		case tk[1] == "start" && len(tk) == 3:
+		case tk[1] == "keys" && len(tk) == 3:
+			// the servers' keys: <seed>:<public key>, derived from the seed the way the generator did
+			var ks []*key.Pair
+			okK := e.srv == nil && e.nRestart == 0 && !e.keysGiven
+			for _, t := range strings.Split(tk[2], ",") {
+				p := strings.Split(t, ":")
+				if len(p) != 2 {
+					okK = false
+					break
+				}
+				seed, ok1 := c16unhex(p[0])
+				pubWant, ok2 := c16unhex(p[1])
+				if !ok1 || !ok2 {
+					okK = false
+					break
+				}
+				kp := c16keyFromSeed(seed)
+				if pub, _ := kp.Public.MarshalBinary(); !bytes.Equal(pub, pubWant) {
+					okK = false
+					break
+				}
+				ks = append(ks, kp)
+			}
+			if !okK || len(ks) == 0 || len(ks) > 4 {
+				emit("bad-op")
+				continue
+			}
+			e.keys, e.keysGiven = ks, true
+			emit("ok")
+		case tk[1] == "datadir" && len(tk) == 3 && (tk[2] == "env" || tk[2] == "default"):
+			// how the server is told its data directory: CONODE_SERVICE_PATH, or the default
+			// location (the data path of the user's environment)
+			if e.srv != nil || e.nRestart > 0 {
+				emit("bad-op")
+				continue
+			}
+			e.useDef = tk[2] == "default"
+			emit("ok")
+		case (tk[1] == "mvold" || tk[1] == "cpold") && len(tk) == 3:
+			// what an older version of onet would have left behind: the database file under the name
+			// made from the public key itself (moved there, or a copy of it)
+			ki, err := strconv.Atoi(tk[2])
+			if err != nil || ki < 0 || ki >= len(e.keys) || e.srv != nil {
+				emit("bad-op")
+				continue
+			}
+			cur, old := e.fileNames(ki)
+			data, err := ioutil.ReadFile(cur)
+			if err != nil {
+				emit("nofile")
+				continue
+			}
+			if err := ioutil.WriteFile(old, data, 0600); err != nil {
+				emit("harness:" + err.Error())
+				continue
+			}
+			e.files[fmt.Sprintf("old:%d", ki)] = true
+			if tk[1] == "mvold" {
+				os.Remove(cur)
+				delete(e.files, fmt.Sprintf("new:%d", ki))
+			}
+			emit("ok")
+		case tk[1] == "ls" && len(tk) == 2:
+			l := e.dbFiles()
+			if len(l) < len(e.files) {
+				fail("data-file", fmt.Sprintf("the data directory holds %d database files %v, the servers that ran on it left %d", len(l), l, len(e.files)))
+			}
+			if len(l) == 0 {
+				emit("-")
+			} else {
+				emit(strings.Join(l, ","))
+			}
+		case (tk[1] == "start" && len(tk) == 3) || (tk[1] == "startk" && len(tk) == 5 && (tk[4] == "keep" || tk[4] == "tmp")):
+			ki, tmp := 0, false
+			if tk[1] == "startk" {
+				var err error
+				ki, err = strconv.Atoi(tk[2])
+				if err != nil || ki < 0 || ki >= len(e.keys) {
+					emit("bad-op")
+					continue
+				}
+				tmp = tk[4] == "tmp"
+				tk = []string{tk[0], "start", tk[3]}
+			}
 			if e.srv != nil {
 				emit("bad-op")
 				continue
@@ -632,7 +864,7 @@ func c16run(res *c16result, mu *sync.Mutex, dir string, class string) {
 				emit("harness:unknown-service")
 				continue
 			}
-			if err := e.start(svcs); err != nil {
+			if err := e.start(svcs, ki, tmp); err != nil {
 				emit("err")
 				fail("start", err.Error())
 				return
@@ -648,9 +880,8 @@ func c16run(res *c16result, mu *sync.Mutex, dir string, class string) {
 			if _, err := os.Stat(e.dir); err != nil {
 				fail("data-dir", "data directory vanished on close: "+err.Error())
 			}
-			files, _ := filepath.Glob(filepath.Join(e.dir, "*.db"))
-			if len(files) != 1 {
-				fail("data-file", fmt.Sprintf("%d database files after close, expected exactly one", len(files)))
+			if files := e.dbFiles(); len(files) < len(e.files) {
+				fail("data-file", fmt.Sprintf("%d database files after close %v, the servers that ran on this directory left %d", len(files), files, len(e.files)))
 			}
 			emit("ok")
 		case tk[1] == "save" && len(tk) == 6:
@@ -921,7 +1152,7 @@ func c16run(res *c16result, mu *sync.Mutex, dir string, class string) {
 		e.recheck("closing the server", fail)
 	}
 	var ks []string
-	for _, k := range []string{"save", "savebad", "load", "raw", "savever", "loadver", "addb", "bput", "bget", "bdel", "par"} {
+	for _, k := range []string{"save", "savebad", "load", "raw", "savever", "loadver", "addb", "bput", "bget", "bdel", "par", "startk", "mvold", "cpold", "ls", "datadir"} {
 		if e.kinds[k] {
 			ks = append(ks, k)
 		}
@@ -955,7 +1186,7 @@ func c16marshal(v interface{}) []byte {
 func c16genAll(c *h.Ctx, yield func(*h.Case)) {
 	c16types()
 	r := c.Rng
-	tags := "c16 tags " + c16hex(c16TypeRec[:]) + "," + c16hex(c16TypeBlob[:])
+	tags := "c16 tags " + c16tagList()
 	var cs *h.Case
 	op := func(format string, a ...interface{}) { cs.Ops = append(cs.Ops, "c16 "+fmt.Sprintf(format, a...)) }
 	start := func(class string) {
@@ -971,13 +1202,29 @@ func c16genAll(c *h.Ctx, yield func(*h.Case)) {
 	// case outside-lossless-range for what happens above)
 	value := func() string {
 		var v interface{}
-		switch r.Intn(5) {
+		switch r.Intn(8) {
 		case 0:
 			v = &C16Blob{B: rndBytes(r.Intn(20))}
 		case 1:
 			v = &C16Rec{}
 		case 2:
 			v = &C16Rec{I: int64(r.Intn(2001) - 1000), S: "small"}
+		case 3:
+			v = &C16Empty{} // the encoding is the type id alone
+		case 4:
+			l := &C16Lists{} // empty lists: the encoding is the type id alone
+			if r.Intn(2) == 0 {
+				for q := r.Intn(3); q > 0; q-- {
+					l.L = append(l.L, rndBytes(1+r.Intn(5)))
+				}
+				for q := r.Intn(3); q > 0; q-- {
+					l.P = append(l.P, fmt.Sprintf("p%d", r.Intn(100)))
+				}
+				if r.Intn(3) == 0 {
+					l.O = &C16Empty{}
+				}
+			}
+			v = l
 		default:
 			v = &C16Rec{I: r.Int63n(1<<62) - r.Int63n(1<<62), S: fmt.Sprintf("s%d", r.Intn(1000)), B: rndBytes(r.Intn(12))}
 		}
@@ -1060,21 +1307,83 @@ func c16genAll(c *h.Ctx, yield func(*h.Case)) {
 			}
 		}
 	}
-	history := func(class string, pool []string, withPar bool) {
+	// the keys of a case's servers: "<seed>:<public key>,..."
+	keysOp := func(n int) {
+		var l []string
+		for i := 0; i < n; i++ {
+			seed := rndBytes(8)
+			pub, _ := c16keyFromSeed(seed).Public.MarshalBinary()
+			l = append(l, c16hex(seed)+":"+c16hex(pub))
+		}
+		op("keys %s", strings.Join(l, ","))
+	}
+	// mode "": one server with a key of its own on a CONODE_SERVICE_PATH directory (op "start");
+	// "legacy": the directory holds, now and then, the server's file under the name older versions used;
+	// "two": two or three servers with different keys use the directory one after the other;
+	// "tmp": servers made for a temporary directory (database deleted on close), mixed with regular ones;
+	// "default": the directory is the default data location instead of CONODE_SERVICE_PATH
+	history := func(class string, pool []string, withPar bool, mode string) {
 		start(class)
+		nkeys, cur := 1, 0
+		if mode == "two" {
+			nkeys = 2 + r.Intn(2)
+		}
+		if mode == "default" {
+			op("datadir default")
+		}
+		if mode != "" {
+			keysOp(nkeys)
+		}
+		startOp := func(svcs []string) {
+			switch {
+			case mode == "":
+				op("start %s", strings.Join(svcs, ","))
+			case mode == "tmp" && r.Intn(2) == 0:
+				op("startk %d %s tmp", cur, strings.Join(svcs, ","))
+			default:
+				op("startk %d %s keep", cur, strings.Join(svcs, ","))
+			}
+		}
 		svcs := subset(pool, 2)
-		op("start %s", strings.Join(svcs, ","))
+		startOp(svcs)
 		op("addb %s %s", svcs[0], c16hex(bucketPool[r.Intn(len(bucketPool))]))
-		lookFor := map[string][][]byte{}
+		lookFors := []map[string][][]byte{{}, {}, {}}
+		lookFor := lookFors[0]
 		n := 4 + r.Intn(c.Pick(22, 50))
+		restartEvery := 12
+		if mode != "" {
+			restartEvery = 6
+		}
 		for j := 0; j < n; j++ {
 			switch {
-			case r.Intn(12) == 0:
+			case r.Intn(restartEvery) == 0:
 				op("stop")
 				if r.Intn(3) == 0 {
 					svcs = subset(pool, 1) // a service may be absent for a while
 				}
-				op("start %s", strings.Join(svcs, ","))
+				if mode != "" && r.Intn(3) == 0 {
+					op("ls")
+				}
+				if mode == "legacy" && r.Intn(2) == 0 {
+					// what an older version left: the file under the legacy name (moved or copied)
+					if r.Intn(3) == 0 {
+						op("cpold 0")
+					} else {
+						op("mvold 0")
+					}
+					c.Count("op=legacy-file")
+					if r.Intn(3) == 0 {
+						op("ls")
+					}
+				}
+				if mode == "two" {
+					cur = r.Intn(nkeys)
+					lookFor = lookFors[cur]
+				}
+				startOp(svcs)
+				if mode != "" && r.Intn(3) == 0 {
+					op("ls")
+				}
 				op("addb %s %s", svcs[0], c16hex(bucketPool[r.Intn(len(bucketPool))]))
 				c.Count("op=restart")
 			case withPar && r.Intn(8) == 0:
@@ -1112,9 +1421,20 @@ func c16genAll(c *h.Ctx, yield func(*h.Case)) {
 		}
 		// everything must still be there after a last restart with all services
 		op("stop")
-		op("start %s", strings.Join(pool, ","))
-		op("addb %s %s", pool[0], c16hex([]byte("probe")))
-		readAll(pool, lookFor)
+		if mode == "" {
+			op("start %s", strings.Join(pool, ","))
+			op("addb %s %s", pool[0], c16hex([]byte("probe")))
+			readAll(pool, lookFor)
+		} else {
+			for k := 0; k < nkeys; k++ {
+				op("ls")
+				op("startk %d %s keep", k, strings.Join(pool, ","))
+				op("addb %s %s", pool[0], c16hex([]byte("probe")))
+				readAll(pool, lookFors[k])
+				op("stop")
+			}
+			op("ls")
+		}
 		yield(cs)
 	}
 
@@ -1200,14 +1520,124 @@ func c16genAll(c *h.Ctx, yield func(*h.Case)) {
 	op("bget c16a %s %s", c16hex([]byte("x")), c16hex([]byte("k")))
 	yield(cs)
 
-	for i := 0; i < c.Pick(800, 9000); i++ {
-		history("premise", c16premise, false)
+	start("corpus-legacy-file-restarts") // seeded change C16r4-A: the legacy-named file copied instead of renamed
+	keysOp(1)
+	kA, kB := c16hex([]byte("a")), c16hex([]byte("b"))
+	op("startk 0 c16a,c16b keep")
+	op("save c16a %s %s", kA, valueOf(&C16Rec{I: 1, S: "written by the old version"}))
+	op("savever c16a 1")
+	op("addb c16a %s", c16hex([]byte("x")))
+	op("bput c16a %s %s %s", c16hex([]byte("x")), c16hex([]byte("k")), c16hex([]byte{1}))
+	op("stop")
+	op("mvold 0")
+	op("ls")
+	op("startk 0 c16a,c16b keep") // the take-over
+	op("ls")
+	op("addb c16a %s", c16hex([]byte("x")))
+	op("load c16a %s", kA)
+	op("save c16a %s %s", kA, valueOf(&C16Rec{I: 2, S: "overwritten in run 1"}))
+	op("save c16a %s %s", kB, valueOf(&C16Rec{I: 3, S: "new in run 1"}))
+	op("savever c16a 2")
+	op("bput c16a %s %s %s", c16hex([]byte("x")), c16hex([]byte("k")), c16hex([]byte{2}))
+	op("stop")
+	op("ls")
+	op("startk 0 c16a,c16b keep") // the second start on the same directory
+	op("addb c16a %s", c16hex([]byte("x")))
+	op("load c16a %s", kA)
+	op("load c16a %s", kB)
+	op("loadver c16a")
+	op("bget c16a %s %s", c16hex([]byte("x")), c16hex([]byte("k")))
+	op("save c16a %s %s", kA, valueOf(&C16Rec{I: 4, S: "overwritten in run 2"}))
+	op("stop")
+	op("startk 0 c16a,c16b keep")
+	op("load c16a %s", kA)
+	op("load c16b %s", kA)
+	op("stop")
+	op("ls")
+	yield(cs)
+	start("corpus-empty-body-values") // seeded change C16r4-B: a stored value that is its type id alone taken for "never saved"
+	op("start c16a,c16b")
+	op("save c16a %s %s", c16hex([]byte("counter")), valueOf(&C16Rec{I: 7}))
+	op("load c16a %s", c16hex([]byte("never")))
+	op("save c16a %s %s", c16hex([]byte("marker")), valueOf(&C16Empty{}))
+	op("save c16a %s %s", c16hex([]byte("state")), valueOf(&C16Lists{}))
+	op("raw c16a %s", c16hex([]byte("marker")))
+	op("raw c16a %s", c16hex([]byte("state")))
+	op("load c16a %s", c16hex([]byte("marker")))
+	op("load c16a %s", c16hex([]byte("state")))
+	op("load c16b %s", c16hex([]byte("marker")))
+	op("save c16a %s %s", c16hex([]byte("counter")), valueOf(&C16Empty{})) // a value with a body overwritten by one without
+	op("load c16a %s", c16hex([]byte("counter")))
+	op("save c16a %s %s", c16hex([]byte("state")), valueOf(&C16Lists{L: [][]byte{{1, 2}}, P: []string{"p"}, O: &C16Empty{}}))
+	op("load c16a %s", c16hex([]byte("state")))
+	op("stop")
+	op("start c16a,c16b")
+	op("load c16a %s", c16hex([]byte("marker")))
+	op("load c16a %s", c16hex([]byte("counter")))
+	op("load c16a %s", c16hex([]byte("state")))
+	yield(cs)
+	start("corpus-two-servers-one-directory")
+	keysOp(2)
+	op("startk 0 c16a,c16b keep")
+	op("save c16a %s %s", kA, valueOf(&C16Rec{I: 10, S: "server 0"}))
+	op("savever c16a 10")
+	op("stop")
+	op("startk 1 c16a,c16b keep")
+	op("load c16a %s", kA)
+	op("loadver c16a")
+	op("save c16a %s %s", kA, valueOf(&C16Rec{I: 11, S: "server 1"}))
+	op("savever c16a 11")
+	op("stop")
+	op("ls")
+	op("startk 0 c16a,c16b keep")
+	op("load c16a %s", kA)
+	op("loadver c16a")
+	op("stop")
+	op("startk 1 c16a,c16b keep")
+	op("load c16a %s", kA)
+	op("loadver c16a")
+	yield(cs)
+	start("tmp-dir") // a server made for a temporary directory deletes its database on close (compared with the model only)
+	keysOp(1)
+	op("startk 0 c16a,c16b tmp")
+	op("save c16a %s %s", kA, valueOf(&C16Rec{I: 1, S: "temporary"}))
+	op("load c16a %s", kA)
+	op("ls")
+	op("stop")
+	op("ls")
+	op("startk 0 c16a,c16b keep")
+	op("load c16a %s", kA)
+	op("save c16a %s %s", kA, valueOf(&C16Rec{I: 2, S: "kept"}))
+	op("stop")
+	op("ls")
+	op("startk 0 c16a,c16b tmp") // the same key on the same directory, now as a temporary server: finds the file, removes it on close
+	op("load c16a %s", kA)
+	op("stop")
+	op("ls")
+	op("startk 0 c16a,c16b keep")
+	op("load c16a %s", kA)
+	yield(cs)
+
+	for i := 0; i < c.Pick(700, 8000); i++ {
+		history("premise", c16premise, false, "")
 	}
-	for i := 0; i < c.Pick(500, 6000); i++ {
-		history("premise-concurrent", c16premise, true)
+	for i := 0; i < c.Pick(450, 5500); i++ {
+		history("premise-concurrent", c16premise, true, "")
 	}
-	for i := 0; i < c.Pick(400, 5000); i++ {
-		history("collide", append(append([]string{}, c16premise[:2]...), c16collide...), false)
+	for i := 0; i < c.Pick(350, 4500); i++ {
+		history("collide", append(append([]string{}, c16premise[:2]...), c16collide...), false, "")
+	}
+	for i := 0; i < c.Pick(120, 1500); i++ {
+		history("legacy-file", c16premise, r.Intn(4) == 0, "legacy")
+	}
+	for i := 0; i < c.Pick(100, 1200); i++ {
+		history("two-servers-one-dir", c16premise, r.Intn(4) == 0, "two")
+	}
+	for i := 0; i < c.Pick(60, 700); i++ {
+		history("tmp-dir", c16premise, false, "tmp")
+	}
+	for i := 0; i < c.Pick(30, 300); i++ {
+		history("default-data-path", c16premise, false, "default")
 	}
 	// big values: buckets that are no longer stored inline, pages that are freed and reused
 	// while services keep what they loaded
@@ -1277,6 +1707,8 @@ func c16genAll(c *h.Ctx, yield func(*h.Case)) {
 		{"c16 load c16a 6b"}, {"c16 start c16a", "c16 start c16a"}, {"c16 stop"}, {"c16 start c16a", "c16 load c16b 6b"},
 		{"c16 start c16a", "c16 save c16a zz 00 blob/-"}, {"c16 start c16a", "c16 save c16a 6b 00"}, {"c16 start c16a", "c16 savever c16a x"}, {"c16 frobnicate"},
 		{"c16 start c16a", "c16 stop", "c16 load c16a 6b"}, {"c16 start c16a", "c16 par l,c16b,6b"},
+		{"c16 keys zz"}, {"c16 startk 1 c16a keep"}, {"c16 startk 0 c16a sometimes"}, {"c16 start c16a", "c16 mvold 0"}, {"c16 mvold 3"},
+		{"c16 mvold 0"}, {"c16 ls"}, {"c16 start c16a", "c16 keys 00:00"},
 	} {
 		start("refused")
 		cs.Ops = append(cs.Ops, ops...)
